@@ -218,6 +218,20 @@ def elt_name(t) -> str:
     return ("i", "si", "ui")[t[2]] + str(t[1])
 
 
+def elt_group(t) -> str:
+    """Coarse element-type group for signatures (the exact type goes into the detail text)."""
+    if t[0] == "complex":
+        return "complex<" + elt_group(t[1]) + ">"
+    if t[0] == "f":
+        n = t[1]
+        return n if n in ("f16", "bf16", "f32", "f64") else "wide" if n in ("f80", "f128") \
+            else "small_float"
+    if t[0] == "index":
+        return "index"
+    w = t[1]
+    return ("i", "si", "ui")[t[2]] + ("1" if w == 1 else "<=64" if w <= 64 else ">64")
+
+
 def elt_kind(t) -> str:
     if t[0] == "complex":
         return "complex_" + elt_kind(t[1])
@@ -256,10 +270,10 @@ def describe(r, a, text) -> dict:
         d["value_class"] = int_class(a.value.data, r[2])
     elif tag == "float":
         d["value_class"] = float_value_class(a.value.data, r[2])
-        d["elt"] = r[2]
+        d["elt"] = elt_group(["f", r[2]])
     elif tag in ("dense", "densearr"):
         elt = r[1][1] if tag == "dense" else r[1]
-        d["elt"] = elt_name(elt)
+        d["elt"] = elt_group(elt)
         d["elt_kind"] = elt_kind(elt)
         base = elt[1] if elt[0] == "complex" else elt
         if base[0] == "f":
@@ -358,6 +372,7 @@ def run_recipe(h, r, label):
         if kind.startswith("parse_"):
             sig["err"] = re.sub(r"\d+", "N", detail)[:60]
         h.mismatch(sig, br, f"{type(ba).__name__} printed as {btext[:300]!r}: {kind}: {detail}")
+
 
 
 def replay(h, recipe):
